@@ -220,7 +220,7 @@ Qed.
 
 (* the selector kinds of the API: 0 simple, 1 Multi, 2 Composite, 3 Directional *)
 Definition shape_ok (a : ann) : Prop :=
-  a_kind a <= 3 /\ (a_kind a = 0 -> exists lf, a_leaves a = [lf]) /\ (a_kind a <> 0 -> a_leaves a <> []).
+  a_kind a <= 3 /\ (a_kind a = 0 -> exists lf, a_leaves a = [lf]).
 
 (* the target the row decodes to resolves, in the store it was written from, to the same kind,
    the same items and the same absolute ranges *)
@@ -230,7 +230,7 @@ Theorem target_reresolve s h a bs : IdInv s -> SetsInv s -> store_ok s = true ->
                   /\ resolve_target s tb = (s, Some (a_kind a, lfs'))
                   /\ map (leaf_desc s) lfs' = map (leaf_desc s) (a_leaves a).
 Proof.
-  intros Hid Hsets Hok Hfit Ha (Hk3 & Hk0 & Hkn) Hb.
+  intros Hid Hsets Hok Hfit Ha (Hk3 & Hk0) Hb.
   destruct (leaves_reresolve s h a Hid Hsets Hok Hfit Ha (a_leaves a) bs (fun _ H => H) Hb) as (sbs & lfs' & T1 & T2 & T3).
   destruct (a_kind a) as [|k'] eqn:Ek.
   - destruct (Hk0 eq_refl) as (lf & El). rewrite El in *. cbn [map_opt] in Hb.
@@ -286,9 +286,8 @@ Theorem reachable_reresolve ops h a r : Forall op_ok ops ->
 Proof.
   intros Hops Hok Hfit Ha Hshape Hr.
   pose proof (reachable_IdInv ops) as Hid. pose proof (reachable_SetsInv ops Hops) as Hsets.
-  destruct Hshape as (Hk3 & Hk0 & Hkn).
-  destruct (pack_row_decodes _ h a r Hok Ha Hkn Hr) as (bs & ds & Ebs & Eds & Erow).
-  destruct (target_reresolve _ h a bs Hid Hsets Hok Hfit Ha (conj Hk3 (conj Hk0 Hkn)) Ebs) as (tb & lfs' & T1 & T2 & T3).
+  destruct (pack_row_decodes _ h a r Hok Ha Hr) as (bs & ds & Ebs & Eds & Erow).
+  destruct (target_reresolve _ h a bs Hid Hsets Hok Hfit Ha Hshape Ebs) as (tb & lfs' & T1 & T2 & T3).
   exists bs, ds, tb, lfs'. repeat split; try assumption.
   apply (data_reresolve _ a ds Hid Hsets Hfit Eds).
 Qed.
